@@ -136,6 +136,17 @@ pub fn seeds() -> Vec<(String, Vec<u8>)> {
     // embedded bitmap tables (CBLC/CBDT, EBLC/EBDT: every index and image format), morx (every subtable type and AAT
     // lookup format), SVG, STAT, name format 1, post 2.0, kern format 0/2, vmtx from the spec-based otmodel::bitmapenc
     v.extend(extra_seeds());
+    // WOFF2 files from the C11 model whose brotli stream consists of stored (uncompressed) meta-blocks: a fault lands in the
+    // transformed glyf / hmtx streams, the directory or the collection header themselves instead of in compressed data
+    {
+        let mut kinds: std::collections::BTreeSet<String> = std::collections::BTreeSet::new();
+        for (name, bytes, _) in crate::c11::corpus_for_c09(false) {
+            let kind: String = name.split(|c: char| c == '[' || c == ',' || c == '(').next().unwrap_or("").trim().to_string();
+            if bytes.len() <= 1500 && kinds.len() < 8 && kinds.insert(kind) {
+                v.push((format!("c11-woff2-stored-brotli {}", name), bytes));
+            }
+        }
+    }
     // GSUB 1.1 FeatureVariations (condition sets, feature table substitution) behind a one-axis fvar: the battery shapes
     // variable fonts with a tuple, which is the only way into the condition / substitution readers
     v.push(("gsub-feature-variations+fvar".into(), crate::c03::synthetic_variable_gsub_font()));
